@@ -2,10 +2,12 @@
 from ..sqlgen import *  # noqa
 from ..common import run_go, run_lean, dec_val, canon, enc_val
 
+FACTS = True
 MODULE = "Genql.Properties.C20"
-LEAN_TARGETS = [MODULE]
+LEAN_TARGETS = [MODULE, "Genql.Obligations.C20"]
 THEOREMS = ["Genql.C20." + t for t in [
-    "step_refines", "vars_refine_registers", "setvar_no_column", "never_set_is_null", "final_store", "cross_query"]]
+    "step_refines", "vars_refine_registers", "setvar_no_column", "never_set_is_null", "final_store", "cross_query"]] + \
+    ["Genql.Obligations.C20.vars_function_lines"]
 TRUSTED = ["the evaluation order (rows in source order, select-list items left to right) is supplied by the harness as the "
            "history; that SelectExpr/ExecSelect really evaluate in this order is what the correspondence checks"]
 RULE = ("histories over 1-4 keys spread across 1-6 select-list positions and 0-10 rows, and sequences of 1-4 queries sharing one "
